@@ -847,6 +847,33 @@ Proof. unfold same_frame. intuition congruence. Qed.
 Lemma same_frame_bounds g g' q : same_frame g g' -> in_bounds g q -> in_bounds g' q.
 Proof. unfold same_frame, in_bounds. intros (A & B & C & D & E & _). rewrite B, C, D, E. auto. Qed.
 
+(* a plane inside the grid: both corners of its footprint are inside, so fitting the grid to them changes nothing *)
+Lemma in_bounds_inside g q : pos_ext q -> in_bounds g q -> inside g (qmin q) = true /\ inside g (qmax q) = true.
+Proof.
+  intros (E1 & E2) (A1 & A2 & A3 & A4). unfold inside, Qlt_bool.
+  assert (X : vx (qmin q) < vx (qmax q)) by (unfold qmin, qmax; cbn [vx vsub vadd]; lra).
+  assert (Z : vz (qmin q) < vz (qmax q)) by (unfold qmin, qmax; cbn [vz vsub vadd]; lra).
+  assert (T : forall a b, a <= b -> Qle_bool a b = true) by (intros a b Hab; apply Qle_bool_iff; exact Hab).
+  assert (F : forall a b, a < b -> negb (Qle_bool b a) = true).
+  { intros a b Hab. destruct (Qle_bool b a) eqn:Eb; [|reflexivity]. apply Qle_bool_iff in Eb. lra. }
+  split.
+  - rewrite (T _ _ A1), (T _ _ A3), (F (vx (qmin q)) (inject_Z (g_maxx g))), (F (vz (qmin q)) (inject_Z (g_maxz g))) by lra. reflexivity.
+  - rewrite (T (inject_Z (g_minx g)) (vx (qmax q))), (T (inject_Z (g_minz g)) (vz (qmax q))), (F _ _ A2), (F _ _ A4) by lra. reflexivity.
+Qed.
+
+(* finding F14: in exact arithmetic the repaired mergeQuads is the old one *)
+Lemma merge_quads_fit_noop g h nq eq :
+  Inv g -> nth_error (g_planes g) h = Some eq ->
+  pos_ext nq -> vy (qe nq) == 0 -> in_bounds g nq ->
+  merge_quads g h nq = merge_quads_cells g h nq.
+Proof.
+  intros I Hh NP NY NB. unfold merge_quads. rewrite Hh. cbv zeta.
+  destruct (inv_planes g I h eq Hh) as ((EP & EH & EB) & _).
+  destruct (blend_ok g eq nq EP NP (proj1 EH) NY EB NB) as (BP & _ & BB).
+  destruct (in_bounds_inside g (blend_quad eq nq) BP BB) as (I1 & I2).
+  rewrite (expand_unfold g), I1. rewrite (expand_unfold g), I2. reflexivity.
+Qed.
+
 Lemma merge_quads_spec g h nq eq :
   Inv g -> nth_error (g_planes g) h = Some eq ->
   pos_ext nq -> vy (qe nq) == 0 -> in_bounds g nq ->
@@ -854,12 +881,17 @@ Lemma merge_quads_spec g h nq eq :
   nth_error (g_planes (merge_quads g h nq)) h = Some (blend_quad eq nq) /\
   (forall id, id <> h -> nth_error (g_planes (merge_quads g h nq)) id = nth_error (g_planes g) id).
 Proof.
+  intros I0 Hh NP NY NB. rewrite (merge_quads_fit_noop g h nq eq I0 Hh NP NY NB). revert I0 Hh NP NY NB.
+  change (Inv g -> nth_error (g_planes g) h = Some eq -> pos_ext nq -> vy (qe nq) == 0 -> in_bounds g nq ->
+    Inv (merge_quads_cells g h nq) /\ same_frame g (merge_quads_cells g h nq) /\
+    nth_error (g_planes (merge_quads_cells g h nq)) h = Some (blend_quad eq nq) /\
+    (forall id, id <> h -> nth_error (g_planes (merge_quads_cells g h nq)) id = nth_error (g_planes g) id)).
   intros [Rc L I P C] Hh NP NY NB.
   destruct (P h eq Hh) as ((EP & EH & EB) & EReg).
   destruct (blend_ok g eq nq EP NP (proj1 EH) NY EB NB) as (BP & BY & BB).
   destruct (blend_geometry eq nq) as (_ & _ & _ & _ & _ & _ & _ & BN).
   assert (Hlt : (h < length (g_planes g))%nat) by (apply nth_error_Some; congruence).
-  unfold merge_quads. rewrite Hh. unfold footprint.
+  unfold merge_quads_cells. rewrite Hh. unfold footprint.
   set (cs' := merge_cells _ _ _ _ _ _ _ _ _ _).
   destruct (merge_cells_shape (g_cells g) h
               (Z.to_nat (cellx g (vx (qmin eq)))) (Z.to_nat (cellz g (vz (qmin eq))))
